@@ -533,6 +533,9 @@ class Component(CaselessDict):
         return f"{self.name or type(self).__name__}({dict(self)}{', ' + subs if subs else ''})"
 
     def __eq__(self, other):
+        if not isinstance(other, Component):
+            # None, strings, plain mappings, ... are never equal to a component
+            return False
         if len(self.subcomponents) != len(other.subcomponents):
             return False
 
